@@ -211,10 +211,17 @@ def rule_defn(which):
                     atoms, table = truth_table(crate, an, {HAS_ARC})
                     if atoms is None or len(atoms) != 1:
                         continue
-                    o.instances += 1
                     a = atoms[0]
-                    rev = a[3][1:] == (("field", ("arg", 2), "1"), ("field", ("arg", 2), "0"))
-                    val = table[(True,)] == (not neg) and table[(False,)] == neg
+                    rev = a[3][1:] in ((("field", ("arg", 2), "1"), ("field", ("arg", 2), "0")),
+                                       (("mem", "A2.1", ("e",), None), ("mem", "A2.0", ("e",), None)))
+                    ckey, csrc, cb = consumer_of(crate, prog.fns[bp].get("parent"), bp)
+                    pol = consumer_polarity(crate, prog.fns[bp].get("parent"), ckey, cb)
+                    if pol is None:
+                        o.undecided.append((prog.pretty[bp], "arc test consumed by %s in a form the rule does not interpret" % (ckey or "?").split("::")[-1]))
+                        continue
+                    o.instances += 1
+                    want_true = (not neg) if pol else neg      # value the closure must have when has_arc(v, u) holds
+                    val = table[(True,)] == want_true and table[(False,)] == (not want_true)
                     o.check(rev and val, prog.pretty[bp], name + "-definition",
                             "%s does not test %shas_arc(v, u) for every arc (u, v)" % (name, "!" if neg else ""), prog.fns[bp]["span"])
         closure_defs(crate, o, PRED_CLOSURES)
@@ -396,6 +403,31 @@ def consumer_of(crate, parent, cpath):
     return None, None, None
 
 
+def consumer_polarity(crate, parent, ckey, cb):
+    """True when the parent is true exactly if the closure holds for every item (all(p)); False when it is true exactly
+    if the closure holds for no item (!any(p), find(p).is_none(), position(p).is_none()); None otherwise"""
+    if parent is None or ckey is None:
+        return None
+    pan = crate.an(parent)
+    rets = [ev for ev in pan.events if ev["k"] == "return"]
+    if len(rets) != 1:
+        return None
+    r = rets[0]["val"]
+    site = None
+    for ev in pan.events:
+        if ev["k"] == "call" and ev["b"] == cb:
+            site = ev["res"]
+    if ckey == IT + "all":
+        return True if r == site else None
+    if ckey == IT + "any":
+        return False if r == ("un", "Not", site) else None
+    if ckey in (IT + "find", IT + "position"):
+        if r[0] == "call" and r[1] == "core::option::Option::is_none" and r[3][0] == site:
+            return False
+        return None
+    return None
+
+
 def all_is_conjunct(crate, parent, b):
     """the result of the all() call in block b is a necessary conjunct of the parent's boolean result"""
     atoms, table = truth_table(crate, crate.an(parent), {IT + "all", IT + "eq"})
@@ -405,6 +437,14 @@ def all_is_conjunct(crate, parent, b):
     if len(idx) != 1:
         return False
     return all(not v for k, v in table.items() if not k[idx[0]]) and any(v for k, v in table.items() if k[idx[0]])
+
+
+def is_last_stage(crate, parent, cb):
+    """the adaptor call in block cb of parent is what the parent returns"""
+    pan = crate.an(parent)
+    rets = [ev for ev in pan.events if ev["k"] == "return"]
+    site = [ev["res"] for ev in pan.events if ev["k"] == "call" and ev["b"] == cb]
+    return len(rets) == 1 and bool(site) and rets[0]["val"] == site[0]
 
 
 def closure_defs(crate, o, table):
@@ -431,6 +471,10 @@ def closure_defs(crate, o, table):
                 if kind == "value":
                     defs = ret_defs(an)
                     ok = len(defs) == 1 and expected(crate, cp, defs[0][1], recv_no)
+                    if not ok and consumer == "map" and not is_last_stage(crate, p, cb):
+                        o.undecided.append((who, "one stage of a longer map pipeline"))
+                        o.instances -= 1
+                        continue
                     o.check(ok, who, name + "-definition", msg, prog.fns[cp]["span"])
                     continue
                 keys = {HAS_ARC, IS_SINK, IS_SOURCE, "alloc::collections::btree::set::BTreeSet::contains"}
